@@ -78,6 +78,9 @@ def make_pypred(real, yp, name, arity, rows, style, yv, log, fault):
     # some predicates do not unify themselves but delegate to a query on the same engine (re-entrant use of the
     # engine from inside a Python predicate): the rows live as facts under a name the program does not know
     delegate = (fault.get('kind_seed', 0) + len(rows) + arity) % 4 == 0
+    method_style = (fault.get('kind_seed', 0) + len(name) + arity) % 3 == 0
+    if method_style:
+        fault.setdefault('kinds', {})['unify_method_style'] = fault.setdefault('kinds', {}).get('unify_method_style', 0) + 1
     _HIDDEN[0] += 1
     hidden = 'ypv_hidden_%s_%d_%d' % (name, arity, _HIDDEN[0])     # (a new name per registration)
     if delegate:
@@ -107,7 +110,13 @@ def make_pypred(real, yp, name, arity, rows, style, yv, log, fault):
                 if i == len(terms):
                     yield None
                     return
-                for _ in unify(args[i], terms[i]):
+                # the documented function unify(a, b), or the method of the term interface a.unify(b) - on whatever
+                # the argument is at that moment (a variable an earlier goal has bound, an atom, a structure)
+                if method_style and isinstance(args[i], E.IUnifiable):
+                    it = args[i].unify(terms[i])
+                else:
+                    it = unify(args[i], terms[i])
+                for _ in it:
                     yield from rec(i + 1)
             for _ in rec(0):
                 yield yv
